@@ -16,6 +16,9 @@ EXTENDS PullSrv, SequencesExt
 CONSTANTS NObj, MaxId, Nss, Maxes, Kinds, Toggles,
           DefaultMax,          \* pywbem_mock.config.DEFAULT_MAX_OBJECT_COUNT
           LegacyPullZero,      \* BOOLEAN
+          LegacyTrimRaw,       \* BOOLEAN: the stored rest of an open is cut with
+                               \* the RAW MaxObjectCount parameter (None: all of
+                               \* it is cut) instead of the defaulted one
           GenDepth,            \* > 0: emit call histories of that length
           Cover                \* BOOLEAN: print every transition (workers 1)
 
@@ -50,7 +53,8 @@ ImplOpen(st, k, ns, all, tradok, m) ==
             <<Ok(Take(all, mm), FALSE, id),
               [st EXCEPT !.nextid = @ + 1,
                          !.ctx = (id :> [kind |-> PullKindOf(k),
-                                         data |-> DropN(all, mm),
+                                         data |-> IF LegacyTrimRaw /\ m = NoMax
+                                                  THEN <<>> ELSE DropN(all, mm),
                                          ns |-> ns]) @@ @]>>
 
 (* _pull_response *)
